@@ -144,4 +144,18 @@ def check(ctx: Ctx) -> str:
                 ctx.check(dt.split(".")[-1] not in ("lru_cache", "cache", "memoize"), f"memo:{mod}:{astq.qualname(fn_)}", f"{mod}:{astq.qualname(fn_)}", f"@{dt} on the literal-to-text path",
                           f"{mod}.{astq.qualname(fn_)} is memoised with @{dt}: its cache key compares constants with == / hash, so `{{{{ true }}}}` followed by `{{{{ 1.0 }}}}` renders `True` twice (the finalize wrapper of the output folding is the typical place)", f"{m_.rel}:{fn_.lineno}")
     ctx.floor("decorated functions on the compile path", n_dec, 10)
+    ctx.rule("R7", "compile_expression returns the literal's value itself: TemplateExpression.__call__ replaces the result by None only under `undefined_to_none and isinstance(rv, Undefined)` - never by truthiness (0, 0.0, '' are values)")
+    ctx.use("environment")
+    te = repo.func("environment:TemplateExpression.__call__")
+    subst = [a for a in ast.walk(te.node) if isinstance(a, ast.Assign) and isinstance(a.value, ast.Constant) and a.value.value is None]
+    subst += [r_ for r_ in astq.returns(te.node) if isinstance(r_.value, ast.Constant) and r_.value.value is None]
+    ctx.need(bool(subst), "TemplateExpression.__call__: the None substitution was not found")
+    for i_, a in enumerate(subst):
+        at_ = astq.guard_atoms(te.node, a)
+        und = [x for x in at_ if x[1] and x[0].startswith("isinstance(") and x[0].endswith(", Undefined)")]
+        extra = [x for x in at_ if x not in und and "_undefined_to_none" not in x[0]]
+        ctx.check(bool(und) and not extra, f"undefined_to_none:{i_}", "environment:TemplateExpression.__call__", f"None substituted under {at_}",
+                  f"TemplateExpression.__call__ turns the result into None under {at_}: only an Undefined result may be replaced - with a truthiness test `compile_expression('0')()`, `'0.0'`, `\"''\"` return None instead of the value the literal denotes",
+                  te.loc(a))
+
     return __doc__ or ""
